@@ -2,7 +2,7 @@
    Statements only; proofs in Proofs/ValidProofs.v and Proofs/MergeProofs.v. *)
 From Coq Require Import String Ascii List ZArith.
 From Bkl Require Import Model.Value Model.Merge Model.Str Model.Eval Model.Tools
-  Proofs.MapsProofs Proofs.MergeProofs Proofs.PlainProofs Proofs.ValidProofs Proofs.RequiredProofs.
+  Proofs.MapsProofs Proofs.MergeProofs Proofs.PlainProofs Proofs.ValidProofs Proofs.RequiredProofs Proofs.NestedRepeatProofs.
 Import ListNotations.
 Local Open Scope string_scope.
 Local Open Scope list_scope.
@@ -14,6 +14,28 @@ Theorem C07_outputs_valid : forall o docs outs, eval_docs o docs = Ok outs ->
   Forall (fun out => exists y, out = finalize y /\ validate_go o y = None) outs.
 Proof. exact eval_docs_valid. Qed.
 Print Assumptions C07_outputs_valid.
+
+(* markers cannot hide inside encoded text either: whatever an $encode map evaluates to was produced from a subject
+   that validation accepted (evaluate, VALIDATE, then encode). [validate o x = Ok tt] is validate_go o x = None. *)
+Theorem C07_encode_validated : forall o S di f ec m v r,
+  ssorted m -> Forall (fun kv => match snd kv with VMap vm => lookup "$repeat" vm = None | _ => True end) m ->
+  lookup "$encode" m = Some v -> p2 o S di (Datatypes.S f) ec (VMap m) = Ok r ->
+  exists obj2, p2 o S di f ec (VMap (remove "$encode" m)) = Ok obj2 /\ validate o obj2 = Ok tt /\ encode_any o obj2 v = Ok r.
+Proof. exact p2_encode_validated_plain. Qed.
+Print Assumptions C07_encode_validated.
+
+(* the same with $repeat-valued entries: they are expanded first (repeat_pass), then as above *)
+Theorem C07_encode_validated_general : forall o S di f ec m m1 v r,
+  repeat_pass o S di f ec m = Ok m1 -> lookup "$encode" m1 = Some v -> p2 o S di (Datatypes.S f) ec (VMap m) = Ok r ->
+  exists obj2, p2 o S di f ec (VMap (remove "$encode" m1)) = Ok obj2 /\ validate o obj2 = Ok tt /\ encode_any o obj2 v = Ok r.
+Proof. exact p2_encode_validated. Qed.
+Print Assumptions C07_encode_validated_general.
+
+Theorem C07_list_encode_validated : forall o S di f ec l l1 enc r,
+  pop_list_map_value l "$encode" = Ok (enc, l1) -> is_null enc = false -> p2 o S di (Datatypes.S f) ec (VList l) = Ok r ->
+  exists obj2, p2 o S di f ec (VList l1) = Ok obj2 /\ validate o obj2 = Ok tt /\ encode_any o obj2 enc = Ok r.
+Proof. exact p2_list_encode_validated. Qed.
+Print Assumptions C07_list_encode_validated.
 
 (* a directive-free document that still contains a marker is refused, with the class of the marker *)
 Theorem C07_marker_refused : forall o v e, plain v -> height v <= depth_limit -> v <> VNull ->
